@@ -4,7 +4,7 @@ From Klog Require Import Base.Prelude Base.Utf8 Model.Calendar Model.Values Mode
   Model.Tags Model.Serialiser Model.Reconcile Model.Commands Proofs.Lines Proofs.Parser Proofs.TagsUtf8 Proofs.Calendar
   Proofs.Values Spec.Spec Proofs.SpecValues Proofs.SpecEntry Proofs.SpecRecord Proofs.SpecDoc Proofs.Print
   Proofs.Style Proofs.Reconcile Proofs.Commands Proofs.Rounding Proofs.CommandsSpec.
-From Coq Require Import ZifyBool.
+From Coq Require Import ZifyBool Sorted.
 Open Scope Z_scope.
 
 (* ---------------------------------------------------------------- small facts *)
@@ -1177,11 +1177,71 @@ Definition a_start (cfg : config) (d : date) (fmt_d : reformat bool) (t : time) 
            [{| e_value := VOpen (a_open_range t fmt_t default_style3 rs); e_summary := summary_or_empty summary |}] rs) rs)
   end.
 
-(* every summary the command may resolve to is a specification-conforming one *)
+(* every summary the command may resolve to is a specification-conforming one: the current record is one of the file
+   (or the entry-less record being created), the previous record is one of the file *)
 Definition summaries_ok (s : sum_args) (rs : list record) : Prop :=
   forall current previous summary, resolve_summary s current previous = COk summary ->
-    (current = {| rec_date := rec_date current; rec_should := rec_should current; rec_summary := rec_summary current; rec_entries := [] |} \/ In current rs) ->
+    (rec_entries current = [] \/ In current rs) ->
+    match previous with Some p => In p rs | None => True end ->
     summary_ok summary.
+
+Lemma previous_record_in d rs : match previous_record d rs with Some p => In p rs | None => True end.
+Proof.
+  unfold previous_record.
+  assert (G : forall l acc, match acc with Some p => In p rs | None => True end -> (forall x, In x l -> In x rs) ->
+            match fold_left (fun best r => if cdate_geb (dt (rec_date r)) d then best else
+                                           match best with None => Some r | Some b => if cdate_geb (dt (rec_date b)) (dt (rec_date r)) then best else Some r end) l acc
+            with Some p => In p rs | None => True end).
+  { induction l as [|x l IH]; intros acc Hacc Hl; [exact Hacc|]. cbn [fold_left]. apply IH; [|intros y Hy; apply Hl; right; exact Hy].
+    destruct (cdate_geb (dt (rec_date x)) d); [exact Hacc|]. destruct acc as [b|]; [|apply Hl; left; reflexivity].
+    destruct (cdate_geb (dt (rec_date b)) (dt (rec_date x))); [exact Hacc|apply Hl; left; reflexivity]. }
+  apply G; [exact I|auto].
+Qed.
+
+(* sufficient: the given --summary text is conforming, and no summary line of the file ends in a carriage return *)
+Lemma entry_summary_ok se : wf_entry se = true -> no_cr_lines (e_summary (denote_entry se)) -> summary_ok (e_summary (denote_entry se)).
+Proof.
+  intros We Hcr. unfold wf_entry in We. apply andb_true_iff in We as [W1 Wm]. apply andb_true_iff in W1 as [_ Wf].
+  unfold denote_entry in *. cbn [e_summary] in *.
+  destruct (se_first se) as [t|] eqn:Ef.
+  - destruct t as [|c t'].
+    + exists None, (se_more se). split; [split; reflexivity|]. split; [exact I|]. split; [exact Wm|exact Hcr].
+    + exists (Some (c :: t')), (se_more se). split; [split; [reflexivity|split; [reflexivity|discriminate]]|]. split; [exact Wf|]. split; [exact Wm|exact Hcr].
+  - exists None, (se_more se). split; [split; reflexivity|]. split; [exact I|]. split; [exact Wm|exact Hcr].
+Qed.
+
+Lemma find_nth_entry_in r n e : find_nth_entry r n = Some e -> In e (rec_entries r).
+Proof.
+  unfold find_nth_entry. destruct (_ || _); [discriminate|]. apply nth_error_In.
+Qed.
+
+Theorem summaries_ok_of s recs :
+  forallb (fun rg => wf_record (fst rg)) recs = true ->
+  match s_text s with Some text => summary_ok text | None => True end ->
+  (forall rg se, In rg recs -> In se (sr_entries (fst rg)) -> no_cr_lines (e_summary (denote_entry se))) ->
+  summaries_ok s (denote_recs recs).
+Proof.
+  intros W Htext Hcr current previous summary Hres Hcur Hprev.
+  assert (Hent : forall r e, In r (denote_recs recs) -> In e (rec_entries r) -> summary_ok (e_summary e)).
+  { intros r e Hr He. unfold denote_recs in Hr. apply in_map_iff in Hr as (rg & <- & Hrg).
+    unfold denote_record in He. cbn [rec_entries] in He. apply in_map_iff in He as (se & <- & Hse).
+    rewrite forallb_forall in W. specialize (W rg Hrg). destruct (wf_record_inv _ W) as (_ & _ & _ & _ & Wes & _).
+    rewrite forallb_forall in Wes. exact (entry_summary_ok se (Wes se Hse) (Hcr rg se Hrg Hse)). }
+  assert (Hempty : summary_ok []).
+  { exists None, []. split; [split; reflexivity|]. split; [exact I|]. split; reflexivity. }
+  assert (Hcurent : forall n e, find_nth_entry current n = Some e -> summary_ok (e_summary e)).
+  { intros n e He. apply find_nth_entry_in in He. destruct Hcur as [Hc|Hc]; [rewrite Hc in He; destruct He|exact (Hent _ _ Hc He)]. }
+  unfold resolve_summary in Hres. destruct (s_text s) as [text|].
+  - destruct (s_resume s || negb (s_nth s =? 0)); [discriminate|]. injection Hres as <-. exact Htext.
+  - destruct (s_resume s && negb (s_nth s =? 0)); [discriminate|].
+    destruct (s_resume s).
+    + destruct (find_nth_entry current (-1)) as [e|] eqn:E1; [injection Hres as <-; exact (Hcurent _ _ E1)|].
+      destruct previous as [p|]; [|injection Hres as <-; exact Hempty].
+      destruct (find_nth_entry p (-1)) as [e|] eqn:E2; [|injection Hres as <-; exact Hempty].
+      injection Hres as <-. exact (Hent p e Hprev (find_nth_entry_in _ _ _ E2)).
+    + destruct (negb (s_nth s =? 0)); [|injection Hres as <-; exact Hempty].
+      destruct (find_nth_entry current (s_nth s)) as [e|] eqn:E1; [|discriminate]. injection Hres as <-. exact (Hcurent _ _ E1).
+Qed.
 
 Theorem start_refines now cfg a s file recs d t rs' :
   spec_state file recs -> at_date now (a_date a) = Ok d -> at_time now cfg a = COk t -> valid_time t ->
@@ -1211,7 +1271,7 @@ Proof.
     destruct (elect_values_abstract (determine (denote_record (fst rg)) b) rs _ Hlen) as (E24 & Esp & Eex).
     destruct (determine_entry_style (denote_record (fst rg)) b) as (D24 & Dsp & Dex). rewrite D24 in E24. rewrite Dsp in Esp. rewrite Dex in Eex.
     assert (Hok : summary_ok summary).
-    { apply (Hsum _ _ _ Hres). right. exact (nth_error_In _ _ Hn). }
+    { apply (Hsum _ _ _ Hres); [right; exact (nth_error_In _ _ Hn)|apply previous_record_in]. }
     set (o := a_open_range t (time_format cfg a) (entry_style3 (denote_record (fst rg))) rs).
     assert (Hto : time_ok (o_start o) = true).
     { apply valid_time_ok. unfold o, a_open_range, reformat_time. cbn [o_start]. destruct (apply_reformat _ _); [apply set_time_format_valid|]; exact Hvt. }
@@ -1229,7 +1289,7 @@ Proof.
     { rewrite expect_blocks_length. unfold rs, denote_recs. rewrite map_length. symmetry. exact (Forall2_len _ _ _ F). }
     destruct (elect_values_abstract default_style rs _ Hlen) as (E24 & Esp & Eex).
     assert (Hok : summary_ok summary).
-    { apply (Hsum _ _ _ Hres). left. reflexivity. }
+    { apply (Hsum _ _ _ Hres); [left; reflexivity|apply previous_record_in]. }
     set (o := a_open_range t (time_format cfg a) default_style3 rs).
     assert (Hto : time_ok (o_start o) = true).
     { apply valid_time_ok. unfold o, a_open_range, reformat_time. cbn [o_start]. destruct (apply_reformat _ _); [apply set_time_format_valid|]; exact Hvt. }
@@ -1238,4 +1298,88 @@ Proof.
     unfold inserts_entry. rewrite Hrec. fold rs. rewrite Hres. cbn [cbind].
     rewrite start_open_range_eq; [|rewrite Hrec; reflexivity|exact Hvt].
     rewrite <- Hmul. unfold o, a_open_range, time_format_of, default_style3. rewrite Hst. fold rs. cbn [fst snd]. rewrite E24, Esp, Eex. reflexivity.
+Qed.
+
+(* ---------------------------------------------------------------- the place of a new record is the chronological one *)
+
+Definition rdays (r : record) : Z := days_of (dt (rec_date r)).
+Definition dates_wf (rs : list record) : Prop := Forall (fun r => Proofs.Calendar.wf_date (dt (rec_date r))) rs.
+Definition date_sorted (rs : list record) : Prop := StronglySorted (fun a b => rdays a <= rdays b) rs.
+
+Lemma new_record_position_spec d rs : Proofs.Calendar.wf_date d -> dates_wf rs -> date_sorted rs -> forall i0 r0 rest, rs = r0 :: rest ->
+  days_of (dt (rec_date r0)) <= days_of d ->
+  let k := (new_record_position d rs i0 - i0)%nat in
+  (forall r, In r (firstn (S k) rs) -> rdays r <= days_of d) /\ (forall r, In r (skipn (S k) rs) -> days_of d < rdays r).
+Proof.
+  intros Wd. induction rs as [|r rs IH]; intros Wf Hs i0 r0 rest E H0; [discriminate|]. injection E as <- <-.
+  inversion Wf as [|? ? Wr Wrest]; subst. inversion Hs as [|? ? Hs' Hle]; subst.
+  destruct rs as [|r2 rs'].
+  - cbn [new_record_position]. rewrite Nat.sub_diag. cbn [firstn skipn]. split; [intros x [<-|[]]; exact H0|intros x []].
+  - change (new_record_position d (r :: r2 :: rs') i0) with
+      (if cdate_geb d (dt (rec_date r)) && negb (cdate_geb d (dt (rec_date r2))) then i0 else new_record_position d (r2 :: rs') (S i0)).
+    inversion Wrest as [|? ? Wr2 Wrest']; subst.
+    destruct (cdate_geb d (dt (rec_date r)) && negb (cdate_geb d (dt (rec_date r2)))) eqn:E.
+    + rewrite Nat.sub_diag. cbn [firstn skipn]. split; [intros x [<-|[]]; exact H0|].
+      apply andb_true_iff in E as [_ E2]. apply negb_true_iff in E2.
+      assert (Hlt : days_of d < rdays r2).
+      { unfold rdays. destruct (Z_lt_le_dec (days_of d) (days_of (dt (rec_date r2)))) as [L|L]; [exact L|].
+        apply (cdate_geb_days d _ Wd Wr2) in L. congruence. }
+      intros x [<-|Hx]; [exact Hlt|]. inversion Hs' as [|? ? _ Hle2]; subst. rewrite Forall_forall in Hle2. specialize (Hle2 x Hx). lia.
+    + assert (H2 : days_of (dt (rec_date r2)) <= days_of d).
+      { apply (cdate_geb_days d _ Wd Wr) in H0. rewrite H0 in E. cbn [andb] in E. apply negb_false_iff in E.
+        apply (cdate_geb_days d _ Wd Wr2). exact E. }
+      pose proof (new_record_position_bound d (r2 :: rs') (S i0) ltac:(discriminate)) as B.
+      destruct (IH Wrest Hs' (S i0) r2 rs' eq_refl H2) as [A1 A2].
+      replace (new_record_position d (r2 :: rs') (S i0) - i0)%nat with (S (new_record_position d (r2 :: rs') (S i0) - S i0)) by lia.
+      cbn [firstn skipn]. split; [intros x [<-|Hx]; [exact H0|exact (A1 x Hx)]|exact A2].
+Qed.
+
+Lemma sorted_app_mid (a : list record) x b : date_sorted a -> date_sorted b ->
+  (forall r, In r a -> rdays r <= rdays x) -> (forall r, In r b -> rdays x <= rdays r) ->
+  (forall r1 r2, In r1 a -> In r2 b -> rdays r1 <= rdays r2) -> date_sorted (a ++ x :: b).
+Proof.
+  intros Ha Hb Hax Hxb Hab. induction Ha as [|y a Ha IH Hy]; cbn [app].
+  - constructor; [exact Hb|]. apply Forall_forall. exact Hxb.
+  - constructor.
+    + apply IH; [intros r Hr; apply Hax; right; exact Hr|intros r1 r2 H1 H2; apply Hab; [right; exact H1|exact H2]].
+    + apply Forall_forall. intros z Hz. apply in_app_or in Hz as [Hz|[<-|Hz]].
+      * rewrite Forall_forall in Hy. exact (Hy z Hz).
+      * apply Hax. left. reflexivity.
+      * apply Hab; [left; reflexivity|exact Hz].
+Qed.
+
+Lemma sorted_firstn n rs : date_sorted rs -> date_sorted (firstn n rs).
+Proof.
+  intros H. revert n. induction H as [|x rs H IH Hx]; intros [|n]; cbn [firstn]; try constructor; [apply IH|].
+  apply Forall_forall. intros y Hy. rewrite Forall_forall in Hx. exact (Hx y (in_firstn _ _ _ Hy)).
+Qed.
+
+Lemma sorted_skipn n rs : date_sorted rs -> date_sorted (skipn n rs).
+Proof. intros H. revert n. induction H as [|x rs H IH Hx]; intros [|n]; cbn [skipn]; try constructor; auto. Qed.
+
+Lemma sorted_pairs rs : date_sorted rs -> forall n r1 r2, In r1 (firstn n rs) -> In r2 (skipn n rs) -> rdays r1 <= rdays r2.
+Proof.
+  intros H. induction H as [|x rs H IH Hx]; intros [|n] r1 r2 H1 H2; cbn [firstn skipn] in *; try (destruct H1; fail).
+  destruct H1 as [<-|H1]; [rewrite Forall_forall in Hx; exact (Hx r2 (in_skipn _ _ _ H2))|exact (IH n r1 r2 H1 H2)].
+Qed.
+
+(* a new record goes to its chronological position: a file in date order stays in date order *)
+Theorem insert_record_sorted x rs : Proofs.Calendar.wf_date (dt (rec_date x)) -> dates_wf rs -> date_sorted rs ->
+  date_sorted (insert_record x rs).
+Proof.
+  intros Wx Wf Hs. unfold insert_record. destruct rs as [|r0 rest]; [constructor; [constructor|constructor]|].
+  inversion Wf as [|? ? W0 Wrest]; subst.
+  destruct (negb (cdate_geb (dt (rec_date x)) (dt (rec_date r0)))) eqn:E.
+  - apply negb_true_iff in E.
+    assert (Hlt : rdays x < rdays r0).
+    { unfold rdays. destruct (Z_lt_le_dec (days_of (dt (rec_date x))) (days_of (dt (rec_date r0)))) as [L|L]; [exact L|].
+      apply (cdate_geb_days _ _ Wx W0) in L. congruence. }
+    constructor; [exact Hs|]. apply Forall_forall. intros y [<-|Hy]; [lia|].
+    inversion Hs as [|? ? _ Hle]; subst. rewrite Forall_forall in Hle. specialize (Hle y Hy). lia.
+  - apply negb_false_iff in E. apply (cdate_geb_days _ _ Wx W0) in E.
+    set (i := new_record_position (dt (rec_date x)) (r0 :: rest) 0).
+    destruct (new_record_position_spec (dt (rec_date x)) (r0 :: rest) Wx Wf Hs 0%nat r0 rest eq_refl E) as [A1 A2].
+    rewrite Nat.sub_0_r in A1, A2. fold i in A1, A2.
+    apply sorted_app_mid; [apply sorted_firstn; exact Hs|apply sorted_skipn; exact Hs|exact A1| |exact (sorted_pairs _ Hs (S i))].
+    intros r Hr. specialize (A2 r Hr). unfold rdays in *. lia.
 Qed.
